@@ -674,7 +674,10 @@ ReleaseBlocked(S, m) ==
                ELSE LET S1 == [S0 EXCEPT !.nodes[m].bq = Tail(@), !.nodes[m].lbq = @ - 1]
                         c == Cu(S1, i)
                         S2 == IF c.intr
-                              THEN [SetCu(S1, i, [c EXCEPT !.intr = FALSE, !.ss = c.oss, !.se = c.oss + c.ost])
+                              THEN [Step(SetCu(S1, i, [c EXCEPT !.intr = FALSE, !.ss = c.oss, !.se = c.oss + c.ost]),
+                                         [St("ssrestore") EXCEPT !.n = from, !.i = i,
+                                                                 !.s = IF IsDeadRef(c.srv) THEN DeadId(c.srv) ELSE Max2(c.srv, 0),
+                                                                 !.x = c.oss])
                                       EXCEPT !.nodes[from].intr = RemoveFirst(@, i), !.nodes[from].nintr = @ - 1]
                               ELSE S1
                     IN Release(S2, from, i, m, FALSE)
